@@ -118,6 +118,12 @@ def eval_text_full(text, gtype, fmt):
     got = out[1]
     if got[0] == 'bad':
         return ('inconsistent-object', got[1]), kinds[0], kinds[1]
+    if verdict[0] == 'graph~':
+        iso = gr.side_isomorphic(verdict[1], got)
+        if iso is False:
+            return ('wrong-graph', 'returned {} but the text describes, up to the numbering inside each side, {}'.format(
+                gr.describe(got), gr.describe(verdict[1]))), kinds[0], kinds[1]
+        return None, kinds[0], kinds[1]
     if verdict[0] == 'graph' and got != verdict[1]:
         return ('wrong-graph', 'returned {} but the text describes {}'.format(gr.describe(got), gr.describe(verdict[1]))), kinds[0], kinds[1]
     if verdict[0] == 'reject':
@@ -601,6 +607,109 @@ def bounded_texts(ctx):
     ctx.sample({'text': '2 2\n0 1\n0\n', 'type': 'bipartite', 'format': 'matrix'})
 
 
+# ------------------------------------------------------------------------------------------
+#  bipartite gml / dot files in layouts that cnfgen's own writer never produces
+# ------------------------------------------------------------------------------------------
+def _layouts(L, R, full):
+    """(name, declaration order, ids): orders of declaration x numberings of the ids"""
+    left = [('L', i) for i in range(1, L + 1)]
+    right = [('R', j) for j in range(1, R + 1)]
+    inter = [x for p in itertools.zip_longest(right, left) for x in p if x is not None]
+    orders = [('left-first', left + right), ('right-first', right + left), ('interleaved', inter),
+              ('reversed', (left + right)[::-1])]
+    if full:
+        orders = [('perm', list(p)) for p in itertools.permutations(left + right)]
+    out = []
+    for oname, decl in orders:
+        ids = {
+            'left-low': {x: k for k, x in enumerate(left + right, start=1)},
+            'right-low': {x: k for k, x in enumerate(right + left, start=1)},          # right side numbered below the left
+            'by-declaration': {x: k for k, x in enumerate(decl, start=1)},
+            'gaps-right-low': {x: 3 * k + 2 for k, x in enumerate(right + left)},
+            'scrambled': {x: ((5 * k + 3) % 11) + 1 for k, x in enumerate(left + right)},   # neither order
+        }
+        for iname, ident in ids.items():
+            out.append((oname + '/' + iname, decl, ident))
+    return out
+
+
+def layout_expected(g, decl, ident, fmt):
+    """what the documentation promises for this layout: ('graph', h) when inside each side the
+    declaration order is the id order (h = g renumbered in that order), else ('graph~', g)"""
+    _, L, R, E = g
+    left = [x for x in decl if x[0] == 'L']
+    right = [x for x in decl if x[0] == 'R']
+    for part in (left, right):
+        if [ident[x] for x in part] != sorted(ident[x] for x in part):
+            return ('graph~', g)
+        if fmt == 'dot' and [str(ident[x]) for x in part] != sorted(str(ident[x]) for x in part):
+            return ('graph~', g)          # dot names are text: 10 < 9 as text
+    pos = {x: k + 1 for part in (left, right) for k, x in enumerate(part)}
+    return ('graph', gr.canon('bipartite', (L, R), [(pos[('L', u)], pos[('R', v)]) for u, v in E]))
+
+
+def bounded_bipartite_layouts(ctx):
+    sup = supported()
+    thorough = ctx.tier == 'thorough'
+    rng = random.Random(ctx.seed + 2)
+    tasks = []
+    seen = set()
+    shapes = [(0, 0), (1, 0), (0, 1), (1, 1), (1, 2), (2, 1), (2, 2), (3, 2), (2, 3)]
+    for (L, R) in shapes:
+        for _, _, edges in en.bipartite_graphs(L, R):
+            g = gr.canon('bipartite', (L, R), edges)
+            for fmt in ('gml', 'dot'):
+                if fmt not in sup['bipartite']:
+                    continue
+                full = fmt == 'gml' and L + R <= 4
+                lays = _layouts(L, R, full)
+                if fmt == 'dot' and not thorough:
+                    lays = [l for l in lays if rng.random() < (0.5 if L + R <= 4 else 0.12)]
+                elif fmt == 'gml' and not thorough and L + R > 4:
+                    lays = [l for l in lays if rng.random() < 0.5]
+                for lname, decl, ident in lays:
+                    es = sorted(g[3])
+                    flips = [frozenset(), frozenset(es), frozenset(es[::2]), frozenset(es[1::2])]
+                    if not (thorough or full):
+                        flips = flips[:2] + [flips[2 + len(tasks) % 2]]
+                    for flip in {f for f in flips}:
+                        text = gr.bipartite_layout_text(fmt, g, decl, ident, flip)
+                        if (text, fmt) in seen:
+                            continue
+                        seen.add((text, fmt))
+                        want = layout_expected(g, decl, ident, fmt)
+                        got = gr.read(fmt, text, 'bipartite')
+                        # self-check of the checker: the independent reader finds in the text what the
+                        # layout was generated from (an error here is a checker error, not a verdict)
+                        if got[0] != want[0] or (got[1] != want[1] if got[0] == 'graph' else gr.side_isomorphic(got[1], want[1]) is not True):
+                            raise AssertionError('independent reader disagrees with the generator on {!r}: {} vs {}'.format(text, got, want))
+                        tasks.append(('text', text, 'bipartite', fmt))
+    ctx.bounds['bipartite layouts'] = ('independently written gml and dot files of all bipartite graphs with sides {} ; node declarations in '
+                                       'every order (gml, <= 4 vertices) or left-first / right-first / interleaved / reversed; ids numbered '
+                                       'left-low, right-low (right side below the left), by declaration, with gaps, scrambled; every edge '
+                                       'written as (left,right), as (right,left) and mixed; dot and the larger gml cases sampled in the '
+                                       'quick tier').format(shapes)
+    ctx.rule('C14 bipartite layouts: one case = (text, format); the expected numbering follows BipartiteGraph.normalize / from_networkx '
+             '(each side 1..n in the order of the vertices): exact when declaration order and id order agree inside each side, otherwise '
+             'side sizes and edges up to a renumbering of each side; non-trivial iff the graph has an edge')
+    res = _run(ctx, tasks, batch=60)
+    stats = {}
+    for task, (bad, _, cls) in zip(tasks, res):
+        _, text, t, fmt = task
+        ctx.case(('layout', text, fmt), nontrivial='--' in text or 'edge [' in text)
+        if bad:
+            sub, what = bad
+            ctx.violation('read:{}:{}:{}'.format(fmt, t, sub), 'bipartite {} text {!r}: {}'.format(fmt, text[:300], what),
+                          {'fn': 'checks.C14:replay_text', 'args': dict(text=text, gtype=t, fmt=fmt)})
+            k = '{}:violation'.format(fmt)
+        else:
+            k = '{}:text {} -> {}'.format(fmt, cls[0], 'graph returned' if cls[1] == 'ok' else cls[1])
+        stats[k] = stats.get(k, 0) + 1
+    ctx.section('bipartite_layouts', cases=len(tasks), outcome_by_format=dict(sorted(stats.items())))
+    ctx.sample({'layout': 'right-first/right-low', 'format': 'gml', 'text': gr.bipartite_layout_text(
+        'gml', gr.canon('bipartite', (2, 1), [(2, 1)]), [('R', 1), ('L', 1), ('L', 2)], {('R', 1): 1, ('L', 1): 2, ('L', 2): 3}, frozenset())})
+
+
 def run(ctx):
     from checks import proofs
     proofs.run_group(ctx, 'C14')
@@ -618,6 +727,8 @@ def run(ctx):
         bounded_roundtrip(ctx)
     if not only or 'text' in only:
         bounded_texts(ctx)
+    if not only or 'layout' in only:
+        bounded_bipartite_layouts(ctx)
 
 
 def replay(ctx, data):
